@@ -101,6 +101,10 @@ class CachedPrograms(Slice):
         names = ["regs", "out", "exit"]
         findings = []
         a, b = on[-1], off[-1]
+        if a[0] == 1 and a[1][2][0] == 2:
+            # the program performed an access that crosses a word boundary: with the cache it is rejected at that
+            # instruction (documented), without it is not; the transparency claim covers in-word accesses only
+            return [], {"cross-word-program"}
         if a[0] != b[0]:
             findings.append(("violation", f"run ends differently with cache ({a[:2]}) than without ({b[:2]})"))
         elif a[0] == 1:
